@@ -1,4 +1,4 @@
-From QV Require Import model.Base model.Signals proofs.SignalsProofs props.C02.
+From QV Require Import model.Base model.Lang model.Types model.Tir model.Passes model.Signals proofs.SignalsProofs proofs.PropdepProofs props.C02.
 Check (C02_stays_current : forall (key value : Type) (key_eqb : key -> key -> bool),
   (forall a b, key_eqb a b = true <-> a = b) ->
   forall (eval : (key -> value) -> value) (reads connected : (key -> value) -> list key),
@@ -7,5 +7,7 @@ Check (C02_stays_current : forall (key value : Type) (key_eqb : key -> key -> bo
   forall w history, target _ _ (run _ _ key_eqb eval connected w history) = eval (now _ _ (run _ _ key_eqb eval connected w history))).
 Check (C02_run_world : forall (key value : Type) (key_eqb : key -> key -> bool) (eval : (key -> value) -> value) (connected : (key -> value) -> list key) w history,
   now _ _ (run _ _ key_eqb eval connected w history) = fold_left (fun w0 c => update _ _ key_eqb w0 (fst c) (snd c)) history w).
+Check (C02_dependency_complete_ir : forall E c c' ds, analyze_code_property_dependency E c = Ok (c', ds) ->
+  Forall (block_covered E c' (c_nobs c) (length (c_locals c))) (c_blocks c')).
 Check (C02_stale_without_coverage_refuted : exists (eval : (nat -> nat) -> nat) (connected : (nat -> nat) -> list nat) (w : nat -> nat) (h : list (nat * nat)),
     target _ _ (run nat nat Nat.eqb eval connected w h) <> eval (now _ _ (run nat nat Nat.eqb eval connected w h))).
